@@ -36,7 +36,7 @@ FdInit == [reg |-> FALSE, h |-> <<0, 0, 0>>, ck |-> 0, truth |-> -1,
            called |-> {}, miss |-> <<0, 0, 0>>]
 TmInit == [st |-> "idle", exp |-> <<0, 0>>, seq |-> 0]
 TkInit == [st |-> "idle", ran |-> FALSE]
-EvInit == [reg |-> FALSE, needs |-> FALSE, posts |-> 0, calls |-> 0]
+EvInit == [reg |-> FALSE, needs |-> FALSE, posts |-> 0, calls |-> 0, owner |-> 0]
 
 MonInit ==
   [ inMain |-> FALSE, quit |-> FALSE, everMain |-> FALSE,
@@ -52,6 +52,7 @@ MonInit ==
     cbSince |-> FALSE,     \* a callback ran since the last wait entry
     ctx |-> "loop",        \* kind of the last callback / API object
     fatal |-> "",
+    blocked |-> FALSE,     \* the loop thread sits in a wait that found nothing
     viols |-> {}, seen |-> {} ]
 
 V(m, rule) == [m EXCEPT !.viols = @ \cup {rule}]
@@ -102,14 +103,14 @@ ApiStep(m0, e) ==
     [] e.op = "tm_unreg" -> [m EXCEPT !.tm[o].st = "unreg"]
     [] e.op = "tk_reg" -> [m EXCEPT !.tk[o].st = "reg"]
     [] e.op = "tk_unreg" -> [m EXCEPT !.tk[o].st = "unreg"]
-    [] e.op = "ev_reg" -> IF e.r = 0 THEN [m EXCEPT !.ev[o] = [EvInit EXCEPT !.reg = TRUE]]
+    [] e.op = "ev_reg" -> IF e.r = 0 THEN [m EXCEPT !.ev[o] = [EvInit EXCEPT !.reg = TRUE, !.owner = e.t]]
                           ELSE S(m, "C07:failed-reg")
     [] e.op = "ev_unreg" -> [m EXCEPT !.ev[o].reg = FALSE, !.ev[o].needs = FALSE]
-    [] e.op = "ev_post" -> [m EXCEPT !.ev[o].needs = TRUE, !.ev[o].posts = @ + 1]
-    [] e.op = "raw_reg" -> IF e.r = 0 THEN [m EXCEPT !.raw[o] = [EvInit EXCEPT !.reg = TRUE]]
+    [] e.op = "ev_post" -> m     \* counted at PostB (the moment the post began)
+    [] e.op = "raw_reg" -> IF e.r = 0 THEN [m EXCEPT !.raw[o] = [EvInit EXCEPT !.reg = TRUE, !.owner = e.t]]
                            ELSE S(m, "C07:failed-reg")
     [] e.op = "raw_unreg" -> [m EXCEPT !.raw[o].reg = FALSE, !.raw[o].needs = FALSE]
-    [] e.op = "raw_post" -> [m EXCEPT !.raw[o].needs = TRUE, !.raw[o].posts = @ + 1]
+    [] e.op = "raw_post" -> m
     [] e.op = "quit" -> IF m.inMain THEN [m EXCEPT !.quit = TRUE] ELSE m
     [] OTHER -> m
 
@@ -159,7 +160,8 @@ CbEv(m, e, fld, P) ==
   ELSE
     LET m1 == Chk(S(m, "C01:cb-after-unreg"), P = "C08", r.calls + 1 <= r.posts, "C08:over")
         m2 == Chk(m1, TRUE, e.h = o /\ e.ko = e.k, P \o ":wrong-cookie")
-    IN [m2 EXCEPT ![fld][o].needs = FALSE, ![fld][o].calls = @ + 1]
+        m3 == Chk(m2, TRUE, e.t = r.owner, P \o ":wrong-thread")
+    IN [m3 EXCEPT ![fld][o].needs = FALSE, ![fld][o].calls = @ + 1]
 
 CbStep(m0, e) ==
   LET m1 == Chk(m0, TRUE, m0.inMain, "C07:cb-outside-main")
@@ -208,11 +210,19 @@ Block(m, e) ==
       m1 == Chk(m, wantedAny, ready = {}, "C02:sleep-on-ready")
       m2 == Chk(m1, \E k \in Obj : m1.tk[k].st \in {"reg", "fired"},
                 ~(\E k \in Obj : m1.tk[k].st = "reg"), "C06:sleep-with-task")
-      m3 == Chk(m2, \E o \in Obj : m2.ev[o].reg /\ m2.ev[o].posts > 0,
-                ~(\E o \in Obj : m2.ev[o].reg /\ m2.ev[o].needs), "C08:lost")
-      m4 == Chk(m3, \E o \in Obj : m3.raw[o].reg /\ m3.raw[o].posts > 0,
-                ~(\E o \in Obj : m3.raw[o].reg /\ m3.raw[o].needs), "C09:lost")
-  IN [m4 EXCEPT !.idle = 0]
+  IN [m2 EXCEPT !.idle = 0, !.blocked = TRUE]
+
+(* global quiescence: every thread is blocked or gone, nothing is in flight.
+   An undelivered post to a registered event of a sleeping loop is lost. *)
+Quiesce(m) ==
+  LET m3 == Chk(m, m.blocked /\ \E o \in Obj : m.ev[o].reg /\ m.ev[o].posts > 0,
+                ~(\E o \in Obj : m.ev[o].reg /\ m.ev[o].needs), "C08:lost")
+  IN Chk(m3, m3.blocked /\ \E o \in Obj : m3.raw[o].reg /\ m3.raw[o].posts > 0,
+         ~(\E o \in Obj : m3.raw[o].reg /\ m3.raw[o].needs), "C09:lost")
+
+PostBegin(m, e) ==
+  IF e.k = "ev" THEN [m EXCEPT !.ev[e.o].needs = TRUE, !.ev[e.o].posts = @ + e.n]
+  ELSE [m EXCEPT !.raw[e.o].needs = TRUE, !.raw[e.o].posts = @ + e.n]
 
 WaitRet(m, e) ==
   LET N == Len(e.tr)
@@ -225,7 +235,7 @@ WaitRet(m, e) ==
                                                          !.truth = IF f <= N /\ ok THEN e.tr[f] ELSE IF ok THEN -1 ELSE @,
                                                          !.miss = <<Miss(f, 1), Miss(f, 2), Miss(f, 3)>>]],
                       !.tk = [k \in Obj |-> [@[k] EXCEPT !.ran = FALSE]],
-                      !.due = newdue, !.roundSeq = m.seq,
+                      !.due = newdue, !.roundSeq = m.seq, !.blocked = FALSE,
                       !.idle = IF ok THEN @ ELSE 0]
       anyW == \E f \in 1..N : \E b \in Band : Wanted(m, f, b) /\ Cond(b, e.tr[f])
   IN Chk(m1, ok /\ anyW, \A f \in Obj : \A b \in Band : m1.fd[f].miss[b] < 3, "C02:not-reported")
@@ -250,15 +260,24 @@ EndStep(m, e) ==
 TimerFatal(msg) ==
   \E i \in 1..(Len(msg) - 4) : SubSeq(msg, i, i + 4) = "timer"
 
-MonStep(m, e) ==
-  CASE e.e = "A" -> ApiStep(m, e)
-    [] e.e = "CbB" -> CbStep(m, e)
+(* events of the loop thread (thread 0 runs the only loop in these scenarios) *)
+LoopStep(m, e) ==
+  CASE e.e = "CbB" -> CbStep(m, e)
     [] e.e = "WE" -> WaitEnter(m, e)
     [] e.e = "Blk" -> Block(m, e)
     [] e.e = "WR" -> WaitRet(m, e)
     [] e.e = "Clk" -> [m EXCEPT !.libNow = e.v]
     [] e.e = "MainB" -> MainBegin(m)
     [] e.e = "MainE" -> MainEnd(m)
+    [] OTHER -> m
+
+MonStep(m, e) ==
+  CASE e.e = "A" -> ApiStep(m, e)
+    [] e.e = "PostB" -> PostBegin(m, e)
+    [] e.e \in {"CbB", "WE", "Blk", "WR", "Clk", "MainB", "MainE"} ->
+         IF e.t = 0 THEN LoopStep(m, e)
+         ELSE IF e.e = "CbB" /\ e.k \in {"ev", "raw"} THEN CbStep(m, e) ELSE m
+    [] e.e = "Qui" -> Quiesce(m)
     [] e.e = "Flt" ->
          (* a failed (interrupted, unsupported) wait call is still "the kernel
             poll" of this iteration: per-iteration bookkeeping starts over *)
